@@ -530,13 +530,14 @@ fn check_against_fresh(d: &mut Driver, state: &State) {
         return;
     }
     if let View::Artifacts(artifacts) = &inc {
-        let tree = world::snapshot(&w.artifact_dir());
+        let tree = world::snapshot(&d.config.artifact_directory.absolute_path);
         if let Some(diff) = world::describe_diff(&tree, artifacts) {
             let step = d.next_step;
             if d.fault_since_clean_probe {
                 d.violations.push(Violation { property: "C19", kind: "not-repaired-after-interrupted-write", detail: format!("at the quiescent point of watch mode that follows a failed write phase (and a successful recompile): {diff}"), step });
             } else {
                 d.violations.push(Violation { property: "C20", kind: "artifact-directory-differs", detail: format!("at a quiescent point of watch mode: {diff}"), step });
+                d.violations.push(Violation { property: "C18", kind: "directory-differs-from-artifacts", detail: format!("at a quiescent point of watch mode (no fault injected): {diff}"), step });
             }
         } else if d.fault_since_clean_probe {
             d.bump("recovered_after_fault");
@@ -576,7 +577,7 @@ pub fn run(case: &WatchCase, tag: u64) -> Outcome {
                 }
                 if !b.probe && d.pending_sys.is_some() && crate::sysfault::available() {
                     // the window stays open while the loop processes this batch
-                    let dir = d.world().artifact_dir();
+                    let dir = d.config.artifact_directory.absolute_path.clone();
                     crate::sysfault::arm(&dir, d.pending_sys.take());
                     d.sys_armed = true;
                 }
@@ -591,7 +592,14 @@ pub fn run(case: &WatchCase, tag: u64) -> Outcome {
                         tx.try_send(b.events).unwrap_or_else(|_| panic!("harness: channel full"));
                     }
                     d.sender = Some(tx2);
+                    let old_artifact_dir = d.config.artifact_directory.absolute_path.clone();
                     d.config = cx::config_for(&d.world()).0;
+                    if d.config.artifact_directory.absolute_path != old_artifact_dir {
+                        // the configured artifact directory moved: "as the previous iteration
+                        // left it" now refers to the new place
+                        d.last_tree = Some(world::snapshot(&d.config.artifact_directory.absolute_path));
+                        d.bump("probe.config_change_moves_artifact_directory");
+                    }
                     // The old watcher is stopped: what its debouncer still held, and the batches
                     // it had flushed but the loop had not taken yet, are lost; the new compiler
                     // state scans the tree as it is now, and the new watcher starts empty.
@@ -622,9 +630,11 @@ pub fn run(case: &WatchCase, tag: u64) -> Outcome {
     verif_hooks::set_after_watch_iteration(Some(Box::new(move |any_state| {
         let state: &mut State = any_state.downcast_mut::<State>().expect("harness: state type");
         let mut d = d2.borrow_mut();
+        let mut write_phase_faulted = false;
         if d.sys_armed {
             let rec = crate::sysfault::disarm();
             d.sys_armed = false;
+            write_phase_faulted = rec.fired;
             if rec.fired {
                 d.fault_since_clean_probe = true;
                 d.bump("fault.sys_fault_in_watch_mode_write_phase");
@@ -637,8 +647,14 @@ pub fn run(case: &WatchCase, tag: u64) -> Outcome {
         // C17 in watch mode: an iteration whose compile reports diagnostics leaves the artifact
         // directory as the previous iteration left it
         {
-            let tree = world::snapshot(&d.world().artifact_dir());
-            let failed = matches!(cx::view_of_db(&state.db), View::Diagnostics(_));
+            let tree = world::snapshot(&d.config.artifact_directory.absolute_path);
+            // "failed" is what the user was told ("Error when compiling."), or what the database
+            // says; a write phase that met an injected fault is C19's business, not C17's
+            let (errors_reported, _successes_reported) = crate::reported::take_reported();
+            let failed = !write_phase_faulted && (errors_reported > 0 || matches!(cx::view_of_db(&state.db), View::Diagnostics(_)));
+            if errors_reported > 0 {
+                d.bump("iterations_that_reported_an_error");
+            }
             if failed {
                 if let Some(before) = d.last_tree.clone() {
                     if before != tree {
@@ -673,6 +689,9 @@ pub fn run(case: &WatchCase, tag: u64) -> Outcome {
     }
 
     let rt =tokio::runtime::Builder::new_current_thread().enable_all().build().expect("runtime");
+    // what the loop tells its user about each compile (tracing events of print_result)
+    let _listening = tracing::subscriber::set_default(crate::reported::OutcomeListener);
+    let _ = crate::reported::take_reported();
     let result = rt.block_on(isograph_compiler::handle_watch_command::<Profile>(config, cwd));
     drop(rt);
     verif_hooks::set_after_watch_iteration(None);
@@ -760,7 +779,7 @@ pub fn generate(seed: u64) -> WatchCase {
                 op: match rng.below(8) {
                     0 | 1 | 2 | 3 => EdOp::WriteSchema(*rng.pick(&[0usize, 0, 0, 1, 1, 2, 3])),
                     4 | 5 => EdOp::WriteExt(*rng.pick(&[0usize, 0, 1, 1, 2])),
-                    _ if config_edits => EdOp::WriteConfig(rng.below(32) as u8),
+                    _ if config_edits => EdOp::WriteConfig(rng.below(64) as u8),
                     _ => EdOp::WriteSchema(0),
                 },
                 after_ms,
